@@ -420,6 +420,8 @@ func runC12(p *core.Prog, r *core.Report) {
 		r.Check(okMod, "C12.R2", "NewStages/module-segmenter", "each store module's segmenter starts at that module's own initial block", "NewModuleState does not receive segmenter.WithInitialBlock(initBlocks[<its own name>])", p.Pos(fn.Pos()))
 	})
 
+	r.Guard("C12.R2", "BackprocessSegmenter", "spans stores and outputs", func() { checkBackprocessSegmenter(p, r) })
+
 	// ------------------------------------------------------------------ R3
 	r.Guard("C12.R3", "errors", "impossible requests are errors", func() { checkImpossibleRequests(p, r) })
 
@@ -980,4 +982,104 @@ func checkTier1StreamBounds(p *core.Prog, r *core.Report, rule string) {
 		r.Check(bad == "", rule, "raw-start-not-planned", "once the start block has been resolved (cursor, negative offsets), the request's raw start_block_num is only logged, validated or part of the request id: it never reaches the plan, the hand-off computation or a segmenter", bad, "")
 		_ = nLoads
 	})
+}
+
+// checkBackprocessSegmenter (C12.R2): the scheduler iterates over BackprocessSegmenter(); when both the stores and the
+// cached outputs have a planned range, it must span both — from the lower of the two start blocks to the higher of the
+// two end blocks.  A segmenter derived from one range only leaves the leading (or trailing) segments of the other
+// without a job while the plan still promises them.
+func checkBackprocessSegmenter(p *core.Prog, r *core.Report) {
+	fn := p.Func(pkgPlan, "RequestPlan.BackprocessSegmenter")
+	r.Touch(core.FuncName(fn))
+	// loads <plan>.<range field>.<bound field> of this function
+	type pair struct{ rng, bound string }
+	loadOf := func(v ssa.Value) (pair, bool) {
+		f, base := core.LoadedField(v)
+		if f == nil || base == nil {
+			return pair{}, false
+		}
+		bf, _ := core.LoadedField(base)
+		if bf == nil {
+			return pair{}, false
+		}
+		return pair{bf.Name(), f.Name()}, true
+	}
+	want := []pair{{"BuildStores", "StartBlock"}, {"WriteExecOut", "StartBlock"}, {"BuildStores", "ExclusiveEndBlock"}, {"WriteExecOut", "ExclusiveEndBlock"}}
+	// edges on which one of the two ranges is known to be nil
+	var nilEdges []core.Edge
+	core.Instrs(fn, func(in ssa.Instruction) {
+		ifi, ok := in.(*ssa.If)
+		if !ok {
+			return
+		}
+		c, neg := core.StripNot(ifi.Cond)
+		bo, ok := c.(*ssa.BinOp)
+		if !ok || (bo.Op != token.EQL && bo.Op != token.NEQ) {
+			return
+		}
+		if k, ok := bo.Y.(*ssa.Const); !ok || !k.IsNil() {
+			return
+		}
+		f, _ := core.LoadedField(bo.X)
+		if f == nil || (f.Name() != "BuildStores" && f.Name() != "WriteExecOut") {
+			return
+		}
+		idx := 0
+		if (bo.Op == token.NEQ) != neg {
+			idx = 1
+		}
+		nilEdges = append(nilEdges, core.Edge{From: ifi.Block(), Idx: idx})
+	})
+	q := core.PathQuery{Fn: fn, CutEdge: func(e core.Edge) bool { return containsEdge(nilEdges, e) }}
+	n := 0
+	var missing []string
+	core.Instrs(fn, func(in ssa.Instruction) {
+		rt, ok := in.(*ssa.Return)
+		if !ok || len(rt.Results) != 1 {
+			return
+		}
+		if _, reach := q.CanReach(nil, func(x ssa.Instruction) bool { return x == in }); !reach {
+			return // a return taken only when one of the two ranges is absent
+		}
+		n++
+		have := map[pair]bool{}
+		for v := range core.OperandSlice(rt.Results[0]) {
+			if pr, ok := loadOf(v); ok {
+				have[pr] = true
+			}
+		}
+		for _, w := range want {
+			if !have[w] {
+				missing = append(missing, w.rng+"."+w.bound)
+			}
+		}
+	})
+	r.Check(len(nilEdges) >= 2 && n > 0 && len(missing) == 0, "C12.R2", "BackprocessSegmenter/spans-both", "when both the stores and the cached outputs are planned, the segmenter the scheduler iterates over is computed from both start blocks and both end blocks", fmt.Sprintf("%d returns with both ranges present; bounds not used: %v", n, missing), p.Pos(fn.Pos()))
+	// and it takes the lower start and the higher end
+	okMin, okMax := false, false
+	core.Instrs(fn, func(in ssa.Instruction) {
+		c, ok := in.(*ssa.Call)
+		if !ok {
+			return
+		}
+		b, ok := c.Call.Value.(*ssa.Builtin)
+		if !ok || len(c.Call.Args) != 2 {
+			return
+		}
+		p0, ok0 := loadOf(core.SkipConv(c.Call.Args[0]))
+		p1, ok1 := loadOf(core.SkipConv(c.Call.Args[1]))
+		if !ok0 || !ok1 || p0.rng == p1.rng || p0.bound != p1.bound {
+			return
+		}
+		if b.Name() == "min" && p0.bound == "StartBlock" {
+			okMin = true
+		}
+		if b.Name() == "max" && p0.bound == "ExclusiveEndBlock" {
+			okMax = true
+		}
+	})
+	if okMin || okMax || len(missing) > 0 {
+		// the builtin form is what the code uses; another way of choosing (an if/else) is not judged here
+		r.Check(okMin && okMax, "C12.R2", "BackprocessSegmenter/min-start-max-end", "the span starts at the LOWER start block and ends at the HIGHER end block", fmt.Sprintf("min over the starts: %v, max over the ends: %v", okMin, okMax), p.Pos(fn.Pos()))
+	}
 }
